@@ -139,6 +139,7 @@ FIRST.update({  # rounds 9 and 10
  "C16j": ("missed", "edge driver: asset-class mixing in every opening order (SOL-class collateral, a pure default-class debt, then staked collateral; staked first; a repaid-to-dust debt; leaving the default bank)"),
  "C05g": ("missed (model drift only)", "RiskCfg: a feed variant after which the account is healthy only thanks to the e-mode maintenance weight, followed by the liquidation attempt"),
  "C09l": ("missed", "liq driver: bankruptcy and receivership attempted on feeds whose confidence interval is far beyond the bank's maximum (collateral feed, debt feed, only the spot / only the time-weighted side; harness modifier conf_frac); C09 clause receivership_assessment_needs_every_holding_priced"),
+ "C04k": ("missed", "RiskCfg world: a second plain debt bank (B7) whose key lies below the e-mode debt bank's (B4 lies above), so the account's debts are reconciled in either order; borrow boundary located for it"),
  "C13g": ("missed", "Config.tla: limits travel with the weights in configure requests (borrow limit 0 / small together with incoherent liability weights)"),
  "C10h": ("missed (not run before the strengthening: no bracket world had a reduce-only collateral bank)", "Recv.tla: the admin makes the collateral bank reduce-only before the bracket (its deposits keep counting for the maintenance and equity valuations)"),
  "C02h": ("missed", "edge driver: all sixteen slots in use, one of them holding less than a share (every whole unit withdrawn after accrual), a seventeenth position attempted by deposit and by borrow"),
